@@ -138,8 +138,12 @@ def scalar_op(op, a, b, c):
         raise ValueError(op)
     if c == "float":
         return _chk_float(r)
-    if c == "uint" and r < 0:
-        raise OutOfDomain("uint-negative")
+    if c == "uint":
+        if r < 0:
+            raise OutOfDomain("uint-negative")
+        if r >= (1 << 32):
+            raise OutOfDomain("int-overflow")
+        return r
     return _chk_int(r)
 
 
